@@ -4,9 +4,11 @@
 
   `Num` models binary64 values as NaN, ±infinity, -0 or a finite rational (`fin 0` is +0);
   `Num.rnd` rounds an exact rational to the nearest double.  `Model.round` is the code's
-  `getRound`; `Spec.round` is §4.4 `round` (⌊x + ½⌋).  The only deviation of the code from the
-  Recommendation is known finding KF-round-negative-tie (`round(-1.5) = -2`), which appears below as
-  the explicit hypothesis of `round_partial` and as `round_counterexample`.
+  `getRound`; `Spec.round` is §4.4 `round` (⌊x + ½⌋, and "If the argument is less than zero, but
+  greater than or equal to -0.5, then negative zero is returned": `round_negative_zero`).  The only
+  deviation of the code from the Recommendation is known finding KF-round-negative-tie
+  (`round(-1.5) = -2`, `round(-0.5) = -1`), which appears below as the explicit hypothesis of
+  `round_partial` and as `round_counterexample` / `round_negative_half`.
 -/
 import Xsel.Eval
 import Proofs.Lemmas.NumRound
@@ -116,58 +118,156 @@ theorem round_counterexample :
     Spec.isNegativeTie (.fin (-3 / 2)) = true := by
   decide +kernel
 
-/-- the deviation happens exactly on the negative ties, where the code gives one less -/
+/-- the deviation happens exactly on the negative ties, where the code gives one less: the code
+    returns `⌊q⌋`, the Recommendation `⌊q⌋ + 1` — which for the tie `-0.5` is the NEGATIVE zero
+    of §4.4 ("less than zero, but greater than or equal to -0.5"). -/
 theorem round_negative_tie (q : Rat) (h : Spec.isNegativeTie (.fin q) = true) :
     Model.round (.fin q) = .fin ((q.floor : Int) : Rat) ∧
-    Spec.round (.fin q) = .fin ((q.floor + 1 : Int) : Rat) := by
+    Spec.round (.fin q) =
+      (if q = -(1 : Rat) / 2 then .nzero else .fin ((q.floor + 1 : Int) : Rat)) ∧
+    (Spec.round (.fin q)).toRat? = some ((q.floor + 1 : Int) : Rat) := by
   simp only [Spec.isNegativeTie, Bool.and_eq_true, decide_eq_true_eq, beq_iff_eq] at h
   obtain ⟨hq, hd⟩ := h
   have h1 : ¬ ((1 : Rat) / 2 < (1 : Rat) / 2) := by decide +kernel
   have h2 : ¬ (0 < q) := by grind
-  simp [Model.round, Spec.round, floor_add_half, hd, h1, h2]
+  have ⟨hb1, hb2⟩ := floor_bounds q
+  have hm : ¬ (-(1 : Rat) / 2 < q ∧ q < 0) := by
+    intro ⟨a, b⟩
+    -- -1/2 < q < 0 forces ⌊q⌋ = -1, so the fraction q + 1 is above 1/2
+    have hf : q.floor = -1 := by
+      apply floor_eq
+      · have : ((-1 : Int) : Rat) = -1 := by decide +kernel
+        rw [this]; grind
+      · have : ((-1 : Int) : Rat) + 1 = 0 := by decide +kernel
+        rw [this]; exact b
+    rw [hf] at hd
+    have : ((-1 : Int) : Rat) = -1 := by decide +kernel
+    rw [this] at hd
+    have hq' : q = -(1 : Rat) / 2 := by grind
+    rw [hq'] at a
+    exact absurd a (by decide +kernel)
+  have hsp : (Spec.round (.fin q)).toRat? = some ((q.floor + 1 : Int) : Rat) := by
+    rw [spec_round_toRat, floor_add_half]
+    have : (1 : Rat) / 2 ≤ q - ((q.floor : Int) : Rat) := by rw [hd]; exact Rat.le_refl
+    simp [this]
+  refine ⟨?_, ?_, hsp⟩
+  · rw [model_round_outside q hm]
+    simp [hd, h1, h2]
+  · by_cases he : q = -(1 : Rat) / 2
+    · subst he; decide +kernel
+    · have hs : ¬ (-(1 : Rat) / 2 ≤ q ∧ q < 0) := by grind
+      rw [spec_round_outside q hs, floor_add_half]
+      have : (1 : Rat) / 2 ≤ q - ((q.floor : Int) : Rat) := by rw [hd]; exact Rat.le_refl
+      simp [this, he]
 
-/-- **round_passes_special** — NaN, the infinities and negative zero are returned unchanged -/
+/-- the negative tie at `-0.5`: `-1` in the code, negative zero in the Recommendation -/
+theorem round_negative_half :
+    Model.round (.fin (-1 / 2)) = .fin (-1) ∧ Spec.round (.fin (-1 / 2)) = .nzero ∧
+    Spec.isNegativeTie (.fin (-1 / 2)) = true := by
+  decide +kernel
+
+/-- **round_passes_special** — NaN, the infinities and the two zeros are returned unchanged -/
 theorem round_passes_special :
     Model.round .nan = .nan ∧ Model.round .pinf = .pinf ∧ Model.round .ninf = .ninf ∧
     Model.round .nzero = .nzero ∧ Model.round (.fin 0) = .fin 0 ∧
     Spec.round .nan = .nan ∧ Spec.round .pinf = .pinf ∧ Spec.round .ninf = .ninf ∧
-    Spec.round .nzero = .nzero := by
+    Spec.round .nzero = .nzero ∧ Spec.round (.fin 0) = .fin 0 := by
   decide +kernel
 
-/-- **round_is_integer** — on a finite number both functions return an integer -/
+/-- **round_negative_zero** — §4.4: "If the argument is less than zero, but greater than or equal to
+    -0.5, then negative zero is returned." -/
+theorem round_negative_zero (q : Rat) (h1 : -(1 : Rat) / 2 ≤ q) (h2 : q < 0) :
+    Spec.round (.fin q) = .nzero :=
+  NumL.spec_round_negative_zero q h1 h2
+
+/-- the code (`math.Copysign(0, -1)` for `-0.5 < n < 0`) does the same on the open interval; the
+    end point `-0.5` is a negative tie (`round_negative_half`) -/
+theorem model_round_negative_zero (q : Rat) (h1 : -(1 : Rat) / 2 < q) (h2 : q < 0) :
+    Model.round (.fin q) = .nzero :=
+  NumL.model_round_negative_zero q h1 h2
+
+/-- negative zero is the result on a finite argument EXACTLY on these intervals; everywhere else the
+    result is `fin n` for an integer `n` (`+0` when `n = 0`) -/
+theorem round_zero_sign (q : Rat) :
+    (Spec.round (.fin q) = .nzero ↔ -(1 : Rat) / 2 ≤ q ∧ q < 0) ∧
+    (Model.round (.fin q) = .nzero ↔ -(1 : Rat) / 2 < q ∧ q < 0) ∧
+    (¬ (-(1 : Rat) / 2 ≤ q ∧ q < 0) → ∃ n : Int, Spec.round (.fin q) = .fin (n : Rat)) ∧
+    (¬ (-(1 : Rat) / 2 < q ∧ q < 0) → ∃ n : Int, Model.round (.fin q) = .fin (n : Rat)) := by
+  have hs : ¬ (-(1 : Rat) / 2 ≤ q ∧ q < 0) → ∃ n : Int, Spec.round (.fin q) = .fin (n : Rat) :=
+    fun h => ⟨_, spec_round_outside q h⟩
+  have hm : ¬ (-(1 : Rat) / 2 < q ∧ q < 0) → ∃ n : Int, Model.round (.fin q) = .fin (n : Rat) := by
+    intro h
+    rw [model_round_outside q h]
+    split
+    · exact ⟨_, rfl⟩
+    · exact ⟨_, rfl⟩
+  refine ⟨⟨fun e => ?_, fun h => NumL.spec_round_negative_zero q h.1 h.2⟩,
+    ⟨fun e => ?_, fun h => NumL.model_round_negative_zero q h.1 h.2⟩, hs, hm⟩
+  · apply Classical.byContradiction
+    intro h
+    obtain ⟨n, hn⟩ := hs h
+    rw [hn] at e; cases e
+  · apply Classical.byContradiction
+    intro h
+    obtain ⟨n, hn⟩ := hm h
+    rw [hn] at e; cases e
+
+/-- **round_is_integer** — on a finite number both functions return an integer (`Num.toRat?`: the
+    value of the result as a rational, both zeros being 0; see `round_zero_sign` for which zero) -/
 theorem round_is_integer (q : Rat) :
-    (∃ n : Int, Model.round (.fin q) = .fin (n : Rat)) ∧ (∃ n : Int, Spec.round (.fin q) = .fin (n : Rat)) := by
-  refine ⟨?_, ⟨_, rfl⟩⟩
-  simp only [Model.round]
+    (∃ n : Int, (Model.round (.fin q)).toRat? = some (n : Rat)) ∧
+    (∃ n : Int, (Spec.round (.fin q)).toRat? = some (n : Rat)) := by
+  refine ⟨?_, ⟨_, spec_round_toRat q⟩⟩
+  rw [model_round_toRat]
   split
   · exact ⟨_, rfl⟩
   · exact ⟨_, rfl⟩
 
+/-- the value of §4.4 `round` is `⌊q + ½⌋` for every finite argument -/
+theorem round_value (q : Rat) :
+    (Spec.round (.fin q)).toRat? = some (((q + (1 : Rat) / 2).floor : Int) : Rat) :=
+  spec_round_toRat q
+
 /-- **round_closest** — §4.4: the result of `round` is an integer closest to the argument
     (distance at most ½), and of two closest integers it is the one nearer to +∞. -/
 theorem round_closest (q : Rat) :
-    ∃ n : Int, Spec.round (.fin q) = .fin (n : Rat) ∧ ((n : Rat) - q).abs ≤ (1 : Rat) / 2 ∧
+    ∃ n : Int, (Spec.round (.fin q)).toRat? = some (n : Rat) ∧ ((n : Rat) - q).abs ≤ (1 : Rat) / 2 ∧
       ((q - (n : Rat) = (1 : Rat) / 2) → False) := by
-  refine ⟨(q + (1 : Rat) / 2).floor, rfl, ?_, ?_⟩
+  refine ⟨(q + (1 : Rat) / 2).floor, spec_round_toRat q, ?_, ?_⟩
   · have ⟨h1, h2⟩ := floor_bounds (q + (1 : Rat) / 2)
     generalize (((q + (1 : Rat) / 2).floor : Int) : Rat) = n at *
     rcases abs_cases (n - q) with ⟨_, e⟩ | ⟨_, e⟩ <;> rw [e] <;> grind
   · have ⟨h1, h2⟩ := floor_bounds (q + (1 : Rat) / 2)
     grind
 
-/-- ties go up: `round(k + ½) = k + 1` for every integer `k` (`round(2.5) = 3`, `round(-2.5) = -2`) -/
-theorem round_tie_up (k : Int) : Spec.round (.fin ((k : Rat) + (1 : Rat) / 2)) = .fin ((k + 1 : Int) : Rat) := by
-  simp only [Spec.round]
-  congr 2
-  apply floor_eq
-  · rw [Rat.intCast_add]; simp only [Rat.intCast_ofNat]; grind
-  · rw [Rat.intCast_add]; simp only [Rat.intCast_ofNat]; grind
+/-- ties go up: `round(k + ½) = k + 1` for every integer `k` (`round(2.5) = 3`, `round(-2.5) = -2`);
+    for `k = -1` the result `0` is the negative zero (`round_negative_half`) -/
+theorem round_tie_up (k : Int) :
+    (Spec.round (.fin ((k : Rat) + (1 : Rat) / 2))).toRat? = some ((k + 1 : Int) : Rat) ∧
+    (k ≠ -1 → Spec.round (.fin ((k : Rat) + (1 : Rat) / 2)) = .fin ((k + 1 : Int) : Rat)) := by
+  have hfl : ((k : Rat) + (1 : Rat) / 2 + (1 : Rat) / 2).floor = k + 1 := by
+    apply floor_eq
+    · rw [Rat.intCast_add]; simp only [Rat.intCast_ofNat]; grind
+    · rw [Rat.intCast_add]; simp only [Rat.intCast_ofNat]; grind
+  refine ⟨by rw [spec_round_toRat, hfl], fun hk => ?_⟩
+  have hout : ¬ (-(1 : Rat) / 2 ≤ (k : Rat) + (1 : Rat) / 2 ∧ (k : Rat) + (1 : Rat) / 2 < 0) := by
+    intro ⟨a, b⟩
+    have a' : ((-1 : Int) : Rat) ≤ (k : Rat) := by
+      have : ((-1 : Int) : Rat) = -1 := by decide +kernel
+      rw [this]; grind
+    have b' : (k : Rat) < ((0 : Int) : Rat) := by
+      have : ((0 : Int) : Rat) = 0 := by decide +kernel
+      rw [this]; grind
+    have a'' : (-1 : Int) ≤ k := Rat.intCast_le_intCast.1 a'
+    have b'' : k < 0 := Rat.intCast_lt_intCast.1 b'
+    omega
+  rw [spec_round_outside _ hout, hfl]
 
 /-- the code's result is also always a closest integer: the deviation is only in the direction of ties -/
 theorem model_round_closest (q : Rat) :
-    ∃ n : Int, Model.round (.fin q) = .fin (n : Rat) ∧ ((n : Rat) - q).abs ≤ (1 : Rat) / 2 := by
+    ∃ n : Int, (Model.round (.fin q)).toRat? = some (n : Rat) ∧ ((n : Rat) - q).abs ≤ (1 : Rat) / 2 := by
   have ⟨h1, h2⟩ := floor_bounds q
-  simp only [Model.round]
+  rw [model_round_toRat]
   split
   · rename_i h
     refine ⟨_, rfl, ?_⟩
